@@ -3,6 +3,7 @@ package ghprovider
 import (
 	"html/template"
 	"os"
+	"strconv"
 	"strings"
 	"sync"
 
@@ -127,7 +128,8 @@ func (provider *Provider) View(layoutName, viewName string) (tmpl *template.Temp
 	if viewName == "" {
 		return nil, goaterr.Errorf("goathtml.Provider: A view name is required")
 	}
-	key = layoutName + ":" + viewName
+	// the length prefix keeps keys of different (layout, view) pairs apart when names contain ":"
+	key = strconv.Itoa(len(layoutName)) + ":" + layoutName + ":" + viewName
 	return provider.view(layoutName, viewName, key)
 }
 
